@@ -250,6 +250,17 @@ class Sec:
                         c.ing.add("BIT_BOUND")
                     if T_MAC in ty or ty in ("u128", "&u128"):
                         c.ing.add("PEER_MAC")
+                # `match byte { 0 => .., 1 => .., _ => return Err(..) }`: the arms enumerate the accepted values; a
+                # contiguous range from 0 is the range test `byte > max` with the same fail-closed edge
+                oty = t["o"].get("p", {}).get("ty", "")
+                if oty in ("u8", "u16", "u32", "u64", "usize", "u128") and fc.get(t["else"]) and len(t["ts"]) >= 2:
+                    try:
+                        vals = sorted(int(v) for v, tb in t["ts"] if not fc.get(tb))
+                    except (TypeError, ValueError):
+                        vals = []
+                    if vals and vals == list(range(0, len(vals))) and len(vals) == len(t["ts"]):
+                        c.ing.add("CMP")
+                        c.ing.add("LIT:%d" % vals[-1])
                 # calls feeding the condition (same body)
                 locs = {n[1] for n in back if n[0] == bk}
                 for cbi, ct in b.calls():
